@@ -13,32 +13,32 @@ import (
 	"berty.tech/go-orbit-db/accesscontroller"
 	"berty.tech/go-orbit-db/accesscontroller/simple"
 	"berty.tech/go-orbit-db/address"
-	"berty.tech/go-orbit-db/stores/eventlogstore"
-	"github.com/libp2p/go-libp2p/p2p/host/eventbus"
 	"berty.tech/go-orbit-db/iface"
+	"berty.tech/go-orbit-db/stores/eventlogstore"
 	cid "github.com/ipfs/go-cid"
+	"github.com/libp2p/go-libp2p/p2p/host/eventbus"
 	"verifmc/sim"
 )
 
 // Adv is the adversarial world: honest writer A, optional second authorised writer B (who may collude),
 // attacker N (not in the write list), and victim replica V which replicates over pubsub and direct channel.
 type Adv struct {
-	Kind             string
-	Net              *sim.Net
-	A, B, N, V       *sim.Instance
-	SA, SB, SV       iface.Store
-	SA2              iface.Store // another database written by A (for foreign-database entries)
-	Addr             string
-	Names            map[string]string // cid -> readable name
-	WriteList        []string
-	counter          int
+	Kind       string
+	Net        *sim.Net
+	A, B, N, V *sim.Instance
+	SA, SB, SV iface.Store
+	SA2        iface.Store // another database written by A (for foreign-database entries)
+	Addr       string
+	Names      map[string]string // cid -> readable name
+	WriteList  []string
+	counter    int
 }
 
 // AdvOptions configures the write list and the controller.
 type AdvOptions struct {
-	Kind       string   // store type
-	Writers    []string // subset of {"A","B"}, or {"*"}, or {} (creator default)
-	Controller string   // "ipfs" (default), "simple", "orbitdb"
+	Kind             string   // store type
+	Writers          []string // subset of {"A","B"}, or {"*"}, or {} (creator default)
+	Controller       string   // "ipfs" (default), "simple", "orbitdb"
 	VictimReplicates bool
 	SimpleDirect     bool // replicas built by the store constructor with an explicit simple access controller
 }
